@@ -153,9 +153,9 @@ CHECKS.update({
     "C10": {
         "variants": ["asan-ts"], "level": "exploration",
         "quick": T(1600, 70), "thorough": T(32000, 900),
-        "rule": "families of 160 seeds per output type: slot 0 = census of the scheduling points thread B passes inside one wrapped call; slot k = a real fork() taken by thread A exactly when B is parked at its k-th scheduling point (every point, in particular those where B owns the registry mutex), the child then makes a wrapped exec call and reports its history over a pipe; remaining slots = sampled points with a grandchild fork. fork handlers registered by the library (pthread_atfork -> __register_atfork) are run as library code. "
+        "rule": "families of 160 seeds per output type: slot 0 = census of the scheduling points thread B passes inside one wrapped call; slot k = a real fork() taken by thread A exactly when B is parked at its k-th scheduling point (every point, in particular those where B owns the registry mutex), the child then makes a wrapped exec call and reports its history over a pipe; remaining slots = sampled points, alternately with a grandchild fork and with one or two further parent threads parked at seeded points inside their own wrapped calls when the fork happens. fork handlers registered by the library (pthread_atfork -> __register_atfork) are run as library code. "
                 "non-trivial = fork happened while B was inside the library; distinct = (mode, fork point, output)",
-        "probes": ["census", "grandchild", "atfork_handlers", "forker_waited_for_mutex"],
+        "probes": ["census", "grandchild", "three_or_more_parent_threads", "atfork_handlers", "forker_waited_for_mutex"],
     },
     "C11": {
         "variants": ["asan-ts", "asan-nots"], "level": "exploration",
